@@ -14,23 +14,29 @@ META = {
 
 def run(ctx):
     drv = ctx.build("c01")
-    # MC + R plan in one exhaustive run: laws on the model and one CASE line per enumerated string
-    cfg = ctx.pick("codec/MCRLP", "codec/MCRLPThorough")
-    res = ctx.model_check("codec/MCRLP", cfg, tags=("CASE", "VIEWS"), timeout=ctx.pick(1800, 7200), name="MCRLP",
-                          workers=ctx.pick(4, 8))
-    views = res.lines.get("VIEWS", [])
-    cases = res.lines.get("CASE", [])
-    if len(views) != 1 or not cases:
-        raise InfraError("MCRLP printed %d VIEWS / %d CASE lines" % (len(views), len(cases)))
-    cp = os.path.join(ctx.scratch, "cases.json")
-    write_json(cp, {"views": views[0], "cases": cases})
-    ctx.drive(drv, ["-mode", "cases", "-in", cp], name="c01-cases", timeout=3600)
+    # MC + R plan in one exhaustive run per partition of the first byte: laws on the model and one CASE line per
+    # enumerated string (the thorough tier is split into four runs to bound the size of the printed plan)
+    cfgs = ctx.pick(["codec/MCRLP"], ["codec/MCRLPThorough%d" % i for i in (1, 2, 3, 4)])
+    for k, cfg in enumerate(cfgs):
+        res = ctx.model_check("codec/MCRLP", cfg, tags=("CASE", "VIEWS"), timeout=ctx.pick(1800, 14400), name=os.path.basename(cfg),
+                              workers=ctx.pick(4, 8))
+        views = res.lines.get("VIEWS", [])
+        cases = res.lines.get("CASE", [])
+        if len(views) != 1 or not cases:
+            raise InfraError("MCRLP printed %d VIEWS / %d CASE lines" % (len(views), len(cases)))
+        cp = os.path.join(ctx.scratch, "cases%d.json" % k)
+        write_json(cp, {"views": views[0], "cases": cases})
+        res.lines.clear(); res.stdout = ""; del cases
+        ctx.drive(drv, ["-mode", "cases", "-in", cp], name="c01-cases-%d" % k, timeout=7200)
+        os.remove(cp)
     # MC: encode/decode round trip over all bounded item trees
     ctx.model_check("codec/MCRLPItems", ctx.pick("codec/MCRLPItems", "codec/MCRLPItemsThorough"), timeout=ctx.pick(1800, 7200),
                     name="MCRLPItems", workers=ctx.pick(4, 8))
+    if ctx.thorough:
+        ctx.model_check("codec/MCRLPItems", "codec/MCRLPItemsDeep", timeout=7200, name="MCRLPItemsDeep", workers=8)
     # V: recorded calls on random values and mutated encodings
     tp = os.path.join(ctx.scratch, "trace.ndjson")
-    s, _ = ctx.drive(drv, ["-mode", "record", "-trace", tp, "-n", ctx.pick(150, 6000)], name="c01-record", timeout=3600)
+    s, _ = ctx.drive(drv, ["-mode", "record", "-trace", tp, "-n", ctx.pick(150, 3000)], name="c01-record", timeout=3600)
     ok, consumed, total, r = ctx.validate("codec/RLPTrace", tp, ntraces=s["evaluations"], timeout=ctx.pick(1800, 7200))
     if not ok:
         ctx.reject_trace("codec/RLPTrace", tp, consumed, r)
